@@ -68,9 +68,21 @@ func cacheRecency(r *simrt.Run, tier string) {
 	}
 	// phase B
 	hot := t.Intn(nKeys)
+	// flight scene (cache_test.go): the concurrent phase opens with a slow, mostly failing Take of the hot key
+	// by client 0 and operations of the other clients on that key while it is in flight (loader <= 20 ms:
+	// no timer comes into reach)
+	var scene *flightScene
+	if t.Chance(1, 3) {
+		scene = drawFlightScene(t, 20, hot, 0)
+		r.Probe("cache-flight-scene")
+	}
 	plans := make([][]cachePlanOp, clients)
 	for c := range plans {
 		for j := 0; j < perClient; j++ {
+			if scene != nil && j == 0 {
+				plans[c] = append(plans[c], scene.first(t, c, nKeys, 1))
+				continue
+			}
 			o := cachePlanOp{key: hot}
 			if t.Bool() {
 				o.key = t.Intn(nKeys)
@@ -189,6 +201,7 @@ func judgeRecency(r *simrt.Run, w *cacheWorld, who string) {
 		return
 	}
 	r.Probe("oracle")
+	w.flightProbes()
 	switch checkCacheHistoryWith(&cacheModel{limit: limit}, ops) {
 	case linOK:
 		return
